@@ -169,10 +169,18 @@ def jsondict_reuse(ctx):
     d = a.to_jsondict()
     keys = sorted(d.keys())
     b1 = ctx.call(lambda: ctx.da.DimArray.from_jsondict(d))
+    if b1[0] == 'ok':
+        # editing the metadata of a restored array does not reach the dictionary it was read from, nor later readers
+        b1[1].attrs['units'] = 'edited'
+        b1[1].attrs['extra'] = 1
+        b1[1].attrs['units'] = 'K'
+        del b1[1].attrs['extra']
+        b1[1].attrs['added-then-kept'] = 2
     b2 = ctx.call(lambda: ctx.da.DimArray.from_jsondict(d))
     ref = Ref(['x', 'y'], labels, cells)
     ok = ctx.AND(b1[0] == 'ok' and same(ctx, b1[1], ref), b2[0] == 'ok' and same(ctx, b2[1], ref), sorted(d.keys()) == keys,
-                 b1[0] == 'ok' and b1[1].attrs.get('units') == 'K' and b2[0] == 'ok' and b2[1].attrs.get('units') == 'K')
+                 b1[0] == 'ok' and b1[1].attrs.get('units') == 'K' and b2[0] == 'ok' and b2[1].attrs.get('units') == 'K',
+                 b2[0] == 'ok' and 'added-then-kept' not in b2[1].attrs and d['meta'] == {'units': 'K'} and a.attrs == {'units': 'K'})
     return ctx.done(ok, [keys, sorted(d.keys())])
 
 
